@@ -12,7 +12,17 @@ Model of `cocls::generator_aggregator` (generator_aggregator.h) over `n` scripte
   (with the argument of the access), `co_await queue.pop()` (parks when the queue is empty, is woken by the next
   push), the `done()` / `value()` examination of the popped source, `co_yield`, the final rethrow of the stored
   exception, and the controller destructor draining the outstanding sources before the frames are destroyed.
-* Ghost fields (`started`, `out`, `calls`, `got`, `thrown`, `dcur`, `drained`, `badDestroy`) are never read by the control flow.
+* Arguments (`generator<T,Arg>`): a generator carries its argument BY REFERENCE (`promise_type::_arg` is a pointer to the
+  caller's object) and hands it out whenever the body asks (`co_yield v` on resumption, `co_yield nullptr` at any time).
+  `cell k` is the storage source `k`'s pointer refers to — the `GenCallback`'s own copy `_arg` (since /repo 2ec61ae);
+  `aggArg` is the aggregator's block-local `arg` (alive from the resumption of the aggregator to the end of the block
+  that charges with it), which is what the pointer referred to before that commit (`lateReadAsIs`).  A source script
+  can fetch its argument again after an asynchronous wait (`Act.awaitRead`); what it reads is logged in `late`.
+* The controller destructor waits for the outstanding sources with `force_sync()` (since /repo 2010fed), which blocks
+  in every context; the destroying context (plain code / a running coroutine, `dcoro`) is recorded only for the as-is
+  variant `aggStepAsIs`, where the blocking `wait()` ran into the library's "blocking wait in a coroutine" assertion.
+* Ghost fields (`started`, `out`, `calls`, `got`, `late`, `thrown`, `dcur`, `dcoro`, `drained`, `badDestroy`) are never read
+  by the control flow; `cell` and `aggArg` are data only (read by `lateRead`, into the ghost log).
 -/
 namespace Cocls.Agg
 
@@ -20,6 +30,7 @@ inductive Act where
   | yield (v : Nat)
   | await
   | throw (e : Nat)
+  | awaitRead          -- like `await`; once the wait is over the body fetches its argument again (`co_yield nullptr`)
   deriving DecidableEq, Repr, Inhabited
 
 /-- what a source left behind when it last resumed its `GenCallback` -/
@@ -51,8 +62,9 @@ inductive Ag where
   | done                          -- at final_suspend, no exception
   | failed (e : Nat)              -- at final_suspend after `rethrow_exception(exp)`
   | draining                      -- frame being destroyed: head of the controller destructor loop
-  | drainWait                     -- blocked in `_queue.pop().wait()`
+  | drainWait                     -- blocked in `_queue.pop().force_sync()`
   | destroyed
+  | aborted                       -- the process died in a library assertion (only reachable with `aggStepAsIs`)
   deriving DecidableEq, Repr, Inhabited
 
 structure Cfg where
@@ -67,13 +79,19 @@ structure State where
   ag : Ag := Ag.init
   count : Nat := 0                         -- `cnt._count` (0 before the controller is constructed)
   exp : Option Nat := none                 -- `exp`
+  cell : Nat → Option Nat := fun _ => none  -- `GenCallback::_arg` of each source: the object the source's argument pointer refers to
+  aggArg : Option Nat := none              -- the aggregator's local `arg`; `none` = not alive (before / after its block)
   -- ghost
   started : Bool := false                  -- the coroutine body has been entered (first access made)
   out : List (Nat × Nat) := []             -- (source, value) handed to the consumer, in order
   calls : List Nat := []                   -- arguments of the accesses that resumed the aggregator, in order
   got : Nat → List Nat := fun _ => []      -- arguments received by each source, in order
+  late : Nat → List (Nat × Option Nat) := fun _ => []
+                                           -- per source: every fetch of the argument after an await, as (number of arguments
+                                           -- received so far, what the reference gave: `none` = a destroyed object)
   thrown : List (Nat × Nat) := []          -- (source, code) caught by the aggregator, in order
   dcur : Option Nat := none                -- the source whose value the consumer held when it destroyed the aggregate
+  dcoro : Bool := false                    -- the aggregate was destroyed by a running coroutine (active coroutine queue)
   drained : Nat := 0                       -- pops performed by the controller destructor
   badDestroy : List Nat := []              -- sources whose frame was destroyed while in flight
 
@@ -81,7 +99,7 @@ inductive Op where
   | next (a : Nat)     -- the consumer accesses the aggregate (any style) with argument `a`
   | agg                -- one atomic step of the running aggregator / its destructor
   | resolve (k : Nat)  -- the asynchronous operation source `k` awaits completes
-  | destroy            -- the consumer destroys the aggregate
+  | destroy (coro : Bool)  -- the consumer destroys the aggregate; `coro`: from inside a running coroutine
   deriving DecidableEq, Repr
 
 def upd {α : Type} (f : Nat → α) (k : Nat) (x : α) : Nat → α := fun j => if j = k then x else f j
@@ -111,6 +129,7 @@ def srcRun (c : Cfg) (s : State) (k : Nat) : State :=
   match c.script k (s.pc k) with
   | some (Act.yield v) => push { s with pc := upd s.pc k (s.pc k + 1), res := upd s.res k (SRes.val v) } k
   | some Act.await => { s with pc := upd s.pc k (s.pc k + 1), st := upd s.st k SSt.inflight }
+  | some Act.awaitRead => { s with pc := upd s.pc k (s.pc k + 1), st := upd s.st k SSt.inflight }
   | some (Act.throw e) => push { s with pc := upd s.pc k (s.pc k + 1), res := upd s.res k (SRes.exc e) } k
   | none => push { s with res := upd s.res k SRes.done } k
 
@@ -118,10 +137,11 @@ def srcRun (c : Cfg) (s : State) (k : Nat) : State :=
 this step*, up to its next suspension: `generator::next_awt::subscribe` does `next_async(awt).resume()` on the source's
 handle directly — it does not go through the thread's `coro_queue` — so this is what the code does both when the
 consumer is plain code and when the aggregate is accessed from inside a running coroutine (active `coro_queue`).
-In particular the source reads the argument (carried by reference to the aggregator's local `arg`) before the
-aggregator goes on. -/
+The `GenCallback` first stores its own copy of the argument (`_arg.emplace(arg)`, replacing the copy of the previous
+charge — the source is parked in `co_yield` then and holds no reference) and gives the source a reference to that
+copy; the source reads it on resumption (`got`) and may read it again until its next `co_yield` (`lateRead`). -/
 def charge (c : Cfg) (s : State) (k a : Nat) : State :=
-  srcRun c { s with got := upd s.got k (s.got k ++ [a]) } k
+  srcRun c { s with got := upd s.got k (s.got k ++ [a]), cell := upd s.cell k (some a) } k
 
 /-- leaving the `while (cnt)` loop: rethrow the stored exception or return -/
 def finish (s : State) : State :=
@@ -149,8 +169,8 @@ def inflightList (s : State) : Nat → List Nat
 def aggStep (c : Cfg) (s : State) : State :=
   match s.ag with
   | Ag.charging i a =>
-      if i < c.n then { charge c s i a with ag := Ag.charging (i + 1) a } else { s with ag := Ag.loop }
-  | Ag.recharge k a => { charge c s k a with ag := Ag.loop }
+      if i < c.n then { charge c s i a with ag := Ag.charging (i + 1) a } else { s with ag := Ag.loop, aggArg := none }
+  | Ag.recharge k a => { charge c s k a with ag := Ag.loop, aggArg := none }
   | Ag.loop =>
       if s.count = 0 then finish s
       else match s.q with
@@ -167,17 +187,28 @@ def aggStep (c : Cfg) (s : State) : State :=
 
 def stepNext (c : Cfg) (s : State) (a : Nat) : State :=
   match s.ag with
-  | Ag.init => { s with ag := Ag.charging 0 a, count := c.n, started := true, calls := [a] }
-  | Ag.parkedYield k => { s with ag := Ag.recharge k a, calls := s.calls ++ [a] }
+  | Ag.init => { s with ag := Ag.charging 0 a, count := c.n, started := true, calls := [a], aggArg := some a }
+  | Ag.parkedYield k => { s with ag := Ag.recharge k a, calls := s.calls ++ [a], aggArg := some a }
   | _ => s
 
-def stepResolve (c : Cfg) (s : State) (k : Nat) : State :=
-  if s.st k = SSt.inflight then srcRun c s k else s
+/-- did the act source `k` is suspended in ask for the argument to be fetched again after the wait -/
+def rereads (c : Cfg) (s : State) (k : Nat) : Bool :=
+  match c.script k (s.pc k - 1) with
+  | some Act.awaitRead => true
+  | _ => false
 
-def stepDestroy (s : State) : State :=
+/-- the wait of source `k` is over; if its script says so the body fetches its argument again (`co_yield nullptr`
+gives `*_arg`): it reads the object its argument pointer refers to, the `GenCallback`'s copy -/
+def lateRead (c : Cfg) (s : State) (k : Nat) : State :=
+  if rereads c s k then { s with late := upd s.late k (s.late k ++ [((s.got k).length, s.cell k)]) } else s
+
+def stepResolve (c : Cfg) (s : State) (k : Nat) : State :=
+  if s.st k = SSt.inflight then srcRun c (lateRead c s k) k else s
+
+def stepDestroy (s : State) (coro : Bool) : State :=
   match s.ag with
-  | Ag.parkedYield k => { s with ag := Ag.draining, dcur := some k }
-  | Ag.init | Ag.done | Ag.failed _ => { s with ag := Ag.draining }
+  | Ag.parkedYield k => { s with ag := Ag.draining, dcur := some k, dcoro := coro }
+  | Ag.init | Ag.done | Ag.failed _ => { s with ag := Ag.draining, dcoro := coro }
   | _ => s
 
 def step (c : Cfg) (s : State) (op : Op) : State :=
@@ -185,9 +216,39 @@ def step (c : Cfg) (s : State) (op : Op) : State :=
   | Op.next a => stepNext c s a
   | Op.agg => aggStep c s
   | Op.resolve k => stepResolve c s k
-  | Op.destroy => stepDestroy s
+  | Op.destroy coro => stepDestroy s coro
 
 def run (c : Cfg) (s : State) (ops : List Op) : State := ops.foldl (step c) s
+
+/-! ## the code as it was before the repairs (kept for the witness theorems in `Props/C14.lean`) -/
+
+/-- AS-IS before /repo commit 2ec61ae ("generator_aggregator handed its sources a reference to its own short-lived copy
+of the argument"): `gcb->charge(arg)` passed the aggregator's block-local `arg` on by reference, so a source fetching
+its argument after a wait read THAT object: destroyed at the end of the charging block (`none`), or already holding
+the argument of a later access that belongs to another source. -/
+def lateReadAsIs (c : Cfg) (s : State) (k : Nat) : State :=
+  if rereads c s k then { s with late := upd s.late k (s.late k ++ [((s.got k).length, s.aggArg)]) } else s
+
+def stepResolveAsIs (c : Cfg) (s : State) (k : Nat) : State :=
+  if s.st k = SSt.inflight then srcRun c (lateReadAsIs c s k) k else s
+
+/-- AS-IS before /repo commit 2010fed ("destroying a parked generator_aggregator from a coroutine aborted instead of
+waiting for in-flight sources"): the controller destructor drained with `_queue.pop().wait()`; when the pop has to
+block (empty queue) and the destroying thread runs a coroutine, `wait()` fails its assertion
+`!coro_queue::is_active()` and the process aborts instead of waiting. -/
+def aggStepAsIs (c : Cfg) (s : State) : State :=
+  match s.ag with
+  | Ag.draining =>
+      if 1 < s.count ∧ s.q = [] ∧ s.dcoro = true then { s with ag := Ag.aborted } else aggStep c s
+  | _ => aggStep c s
+
+def stepAsIs (c : Cfg) (s : State) (op : Op) : State :=
+  match op with
+  | Op.agg => aggStepAsIs c s
+  | Op.resolve k => stepResolveAsIs c s k
+  | op => step c s op
+
+def runAsIs (c : Cfg) (s : State) (ops : List Op) : State := ops.foldl (stepAsIs c) s
 
 /-- is the aggregator able to take an `agg` step -/
 def running (s : State) : Bool :=
